@@ -20,6 +20,7 @@ pub mod c14;
 pub mod c15;
 pub mod c16;
 pub mod c17;
+pub mod c19;
 
 pub struct Args {
     pub tier: Tier,
@@ -89,6 +90,7 @@ pub fn dispatch(
     route!("C15", c15);
     route!("C16", c16);
     route!("C17", c17);
+    route!("C19", c19);
 
     if property == "DEBUG-SCAN" {
         // developer aid: rio-mon DEBUG-SCAN '<body text>'
